@@ -20,10 +20,10 @@ LEVEL = 'translation_validation'
 CLAIM = ("Every vector/matrix/quaternion operation that has a SIMD specialisation in glm/detail/*_simd.inl, glm/ext/*_simd.inl (plus the generic operators on aligned types and the glm_vec4_*/glm_mat4_* kernels of "
          "glm/simd/*.h that no operation reaches) is compiled from /repo as GLM_FORCE_PURE (packed types) and as GLM_FORCE_INTRINSICS (aligned types) at SSE2, SSE3, SSSE3, SSE4.1, SSE4.2, AVX, AVX2 and "
          "AVX2+GLM_FORCE_FMA; both IRs are executed symbolically on shared inputs; the solver shows bit-identical results for the integer/bitwise/comparison/selection/rounding/single-operation class, exact "
-         "(rounding-erased) equality of the computed expressions plus bit-precise equivalence of the discontinuous branch decisions for the multi-term class, and the 2^-11 bound for the lowp approximations.")
+         "(rounding-erased) equality of the computed expressions plus bit-precise equivalence of the discontinuous branch decisions for the multi-term class, magnitude domination of the SIMD intermediates (every rounded add/sub/mul/div/fma node n of the SIMD expression satisfies |n| <= c * max(|pure intermediates|, |operands|) with c <= 16 for all inputs: normal forms, a QF_LRA query over monomial variables, a nonlinear query as fall-back; with the erased equality this is the property's 'few units of rounding of the largest intermediate term' to first order, and it excludes SIMD-only overflow / inf - inf), and the 2^-11 bound for the lowp approximations.")
 BOUNDS = ('all argument values in the documented domain (non-NaN for min/max/clamp/step, finite for the rounding functions, non-zero integer divisors, shift counts below the width, non-negative signed shift operands); '
           'operation table in evidence; every ISA level in both tiers (builds with textually identical IR for a wrapper share one verdict)')
-OUTSIDE = ('magnitude of the rounding difference of multi-term expressions (only rounding-erased equality and bit-precise equality of the discontinuous decisions are decided); lowp reciprocal/rsqrt accuracy is '
+OUTSIDE = ('magnitude of the rounding difference of multi-term expressions beyond the first-order argument (decided: rounding-erased equality, bit-precise equality of the discontinuous decisions, and the domination of every SIMD intermediate by the pure intermediates and operands - the two operations where it fails are known findings); intermediates of lowp operations and nodes whose normal form could not be computed (count in the evidence note) are not compared; lowp reciprocal/rsqrt accuracy is '
            'decided on rounding-erased terms under the Intel SDM contract (|rel. error| <= 1.5*2^-12, positive normal argument), not for the final rounding; AVX-512 / NEON; NaN payloads; '
            'GLM_FORCE_QUAT_DATA_WXYZ x SIMD: quaternion operations at SSE2 and AVX2+FMA in quick, every level in thorough; aligned_lowp vec3 and aligned_mediump vec3 instances: lowp vec3 in the thorough tier only, mediump vec3 not instantiated (same templates as highp); '
            'lowp operations that merely contain a division or square root (mod, smoothstep, normalize ... on aligned_lowp) are compared with rcpps/rsqrtps read as the exact 1/x, 1/sqrt x (the 2^-11 bound is decided for the '
